@@ -346,6 +346,16 @@ func CompareErr(c *Case, want *model.Err, got *errchain.PlError, checkPos bool) 
 	if len(got.PosChain) == 0 {
 		return fmt.Sprintf("error %q carries no position", got.Err)
 	}
+	// the rendered text is the message at the first position, then one line per further position
+	{
+		text := fmt.Sprintf("%s:%d:%d: %s", got.PosChain[0].File, got.PosChain[0].Ln, got.PosChain[0].Col, got.Err)
+		for _, q := range got.PosChain[1:] {
+			text += fmt.Sprintf("\n%s:%d:%d:", q.File, q.Ln, q.Col)
+		}
+		if r := got.Error(); r != text {
+			return fmt.Sprintf("the error renders as %q, its message and positions say %q", r, text)
+		}
+	}
 	p0 := got.PosChain[0]
 	if p0.File != want.File {
 		return fmt.Sprintf("error %q is attributed to %q, the failing construct is in %q", got.Err, p0.File, want.File)
